@@ -4,5 +4,6 @@ CONSTANTS
   NegMag = {1, 3}
   Gaps = {0, 1, 2, 5}
   MaxLen = 12
+  MaxResets = 2
 INVARIANT Emit
 CHECK_DEADLOCK FALSE
